@@ -434,8 +434,8 @@ def run(ctx):
                     if a is not None and a.path() == 'G:todofn':
                         uses.append((fn.name, x.callee, i, x))
     for fname, callee, i, x in uses:
-        r.check(fname == 'main' and callee == 'link' and i == 1, 'todofn-use:%s(arg%d)in-%s' % (callee, i, fname), x.where,
-                'the todo/ name is passed to %s' % callee)
+        r.check(callee == 'link' and i == 1, 'todofn-use:%s(arg%d)' % (callee, i), x.where,
+                'the todo/ name is passed to %s in %s' % (callee, fname))
     if not uses:
         raise AnalysisBroken('todofn is never used')
 
